@@ -561,3 +561,8 @@ mod test {
         }
     }
 }
+
+#[cfg(kani)]
+mod verif_kani {
+    include!(concat!(env!("IPA_VERIF_DIR"), "/kani/oprf_insecure.rs"));
+}
